@@ -230,6 +230,14 @@ Qed.
 (* M8: an instance without threads is destroyed (~ScriptClass with an empty chain, then Free) *)
 Definition destroy_empty (c : N) (s : st) : st :=
   free_class c (set_cthreads c [] (set_chain (remove c (chain s)) s)).
+Lemma cls_destroy_empty c s x :
+  clsof (destroy_empty c s) x = if x =? c then mkC (c_script (clsof s c)) [] else clsof s x.
+Proof. unfold destroy_empty, clsof. prj. apply get_set. Qed.
+Lemma cpool_destroy_empty c s : cpool (destroy_empty c s) = remove c (cpool s).
+Proof. reflexivity. Qed.
+Lemma chain_destroy_empty c s : chain (destroy_empty c s) = remove c (chain s).
+Proof. reflexivity. Qed.
+
 Lemma dinv_destroy_empty sc cl s c :
   Dinv sc cl s -> c_threads (clsof s c) = [] -> Dinv sc cl (destroy_empty c s).
 Proof.
